@@ -54,6 +54,10 @@ const (
 	dirHoldDeliver   = "hold-deliver-until-timeout" // onResponse found the entry: waits (before delivering) until the requester's timer fired
 	dirSleepDeliver  = "sleep-at-deliver"
 	dirCancelDeliver = "cancel-at-deliver" // onResponse found the entry: the caller's context is cancelled before delivery
+	// onResponse found NO entry (late reply: its request timed out / was cancelled) and stands at its "unknown request ID"
+	// warning, still inside the resMu critical section: it waits there until another request of the same node is about to
+	// register or to remove its pending entry (storm_test.go)
+	dirHoldUnknown = "hold-at-unknown-id-until-request-registers"
 )
 
 const holdCap = 1200 * time.Millisecond // every hold gives up after this (then the order is simply not forced)
@@ -71,7 +75,8 @@ type attPlan struct {
 type callPlan struct {
 	Src      int       `json:"src"`
 	Dst      int       `json:"dst"`
-	Hole     int       `json:"black_hole,omitempty"` // > 0: the call addresses black hole #Hole instead of node Dst
+	Hole     int       `json:"black_hole,omitempty"`  // > 0: the call addresses black hole #Hole instead of node Dst
+	Unreach  bool      `json:"unreachable,omitempty"` // the call addresses a peer ID nobody knows an address of
 	PreUs    int       `json:"pre_us,omitempty"`
 	Cancel   bool      `json:"cancel,omitempty"`
 	CancelUs int       `json:"cancel_us,omitempty"`
@@ -92,6 +97,7 @@ type workload struct {
 	Calls     []callPlan  `json:"calls"`
 	Unsol     []unsolPlan `json:"unsolicited,omitempty"`
 	Force     bool        `json:"force,omitempty"` // directed reproduction: do not avoid known triggers
+	Storm     bool        `json:"storm,omitempty"` // late-response-storm class (storm_test.go): liveness probe afterwards
 	dupsLate  bool        // known duplicate-deadlock: duplicates are sent only after the call returned
 }
 
@@ -124,6 +130,12 @@ type attState struct {
 	foundClosed   bool
 	handledClosed bool
 	timeoutClosed bool
+	// storm class: the reply took the unknown-ID branch after its attempt's timer fired / its call was cancelled or had
+	// returned (late), ... while other requests of the same node were in flight, ... and was held there until one of them
+	// was about to take resMu
+	lateUnknown bool
+	lateConc    bool
+	heldReg     bool
 }
 
 type callState struct {
@@ -142,6 +154,7 @@ type callState struct {
 	// requester when the call started or ended
 	stallsStart, stallsEnd int64
 	sawHole                bool
+	wants                  atomic.Bool // about to take resMu (setWant)
 }
 
 type caseState struct {
@@ -168,6 +181,10 @@ type caseState struct {
 	holeStarts [maxConns]atomic.Int32 // ... started so far
 	maxStreak  atomic.Int32           // longest run of failed resMu probes while such a call was outstanding
 	bg         atomic.Int32           // background senders (duplicates, unsolicited) still running; a plain counter: late handler runs may add while afterQuiescence waits
+	lastBeat   atomic.Int64           // process heartbeat at the last event (touch)
+	nodeIn     [maxConns]atomic.Int32 // calls in flight per requester node
+	wantLock   [maxConns]atomic.Int32 // per requester node: calls that are about to take resMu (call about to start / timer fired, until the next after-send or the return)
+	nProbes    int                    // storm class: calls appended to cs.calls for the liveness probe
 }
 
 var (
@@ -188,7 +205,10 @@ func setCase(cs *caseState) {
 	curMu.Unlock()
 }
 
-func (cs *caseState) touch() { cs.last.Store(time.Now().UnixNano()) }
+func (cs *caseState) touch() {
+	cs.last.Store(time.Now().UnixNano())
+	cs.lastBeat.Store(hbBeats.Load())
+}
 
 // att returns the attempt state of a message ID, creating it (next attempt index of the call) when first seen -
 // by the requester at after-send or by the handler, whichever comes first.
@@ -259,6 +279,7 @@ func sched(point string, id string) {
 		cs.mu.Lock()
 		a.entered = true
 		cs.mu.Unlock()
+		cs.setWant(c, false) // registered and sent
 		switch a.plan.Dir {
 		case dirSleepSend:
 			sleepUs(a.plan.DirUs)
@@ -281,6 +302,7 @@ func sched(point string, id string) {
 		}
 		a.timeoutFired = true
 		a.timeoutBeat = hbBeats.Load()
+		cs.setWant(a.call, true) // next: resMu.Lock to remove the pending entry, then the retry registers
 		if !a.timeoutClosed {
 			a.timeoutClosed = true
 			close(a.timeoutCh)
@@ -349,10 +371,10 @@ func onUnknown(id string) {
 	}
 	cs.touch()
 	cs.mu.Lock()
-	defer cs.mu.Unlock()
 	a := cs.byID[id]
 	if a == nil {
 		cs.unkOth.Add(1)
+		cs.mu.Unlock()
 		return
 	}
 	cs.handled.Add(1)
@@ -364,6 +386,59 @@ func onUnknown(id string) {
 		a.handledClosed = true
 		close(a.handledCh)
 	}
+	src := a.call.plan.Src
+	if a.timeoutFired || a.call.cancelled || a.call.returned {
+		a.lateUnknown = true
+		others := int(cs.nodeIn[src].Load())
+		if !a.call.returned {
+			others--
+		}
+		if others > 0 {
+			a.lateConc = true
+		}
+	}
+	hold := a.plan.Dir == dirHoldUnknown && a.unknownN == 1
+	cs.mu.Unlock()
+	if hold {
+		cs.holdUnknown(a, src)
+	}
+}
+
+// setWant marks a call as being about to take resMu (see wantLock).
+func (cs *caseState) setWant(c *callState, on bool) {
+	if c.wants.CompareAndSwap(!on, on) {
+		if on {
+			cs.wantLock[c.plan.Src].Add(1)
+		} else {
+			cs.wantLock[c.plan.Src].Add(-1)
+		}
+	}
+}
+
+// holdUnknown keeps onResponse at its unknown-ID warning (inside the resMu critical section) until a requester of the
+// node is about to take resMu - a call is about to start (registration) or a timer fired (removal, then the retry
+// registers) and has not got through yet - plus DirUs for that requester to get there; gives up after 80 ms.
+func (cs *caseState) holdUnknown(a *attState, src int) {
+	dl := time.Now().Add(80 * time.Millisecond)
+	for cs.wantLock[src].Load() <= 0 {
+		if time.Now().After(dl) {
+			cs.mu.Lock()
+			a.capHit = true
+			cs.mu.Unlock()
+			return
+		}
+		select {
+		case <-cs.closing:
+			return
+		default:
+		}
+		time.Sleep(100 * time.Microsecond)
+	}
+	sleepUs(a.plan.DirUs)
+	cs.mu.Lock()
+	a.heldReg = true
+	cs.mu.Unlock()
+	cs.touch()
 }
 
 func (cs *caseState) cancelCall(c *callState) {
@@ -515,6 +590,19 @@ type verdict struct {
 	overlapHole  int // pristine healthy calls that overlapped an outstanding black-hole call on their node
 	otherErrs    []string
 	wall         time.Duration
+	// blocked layer (mutex waits, requester parked beyond its timeout) and late-response-storm class
+	blocked   bool
+	lateN     int // replies that took the unknown-ID branch after timeout/cancellation of their attempt
+	lateConc  int // ... while other requests of the same node were in flight
+	heldReg   int // ... and were held in that branch until another requester was about to take resMu
+	unreachN  int // calls to a peer nobody knows an address of that ended with an error
+	probeN    int
+	probeOK   int
+	probeBad  []string
+	starvedPr bool // a heartbeat was late during the liveness probe
+	// other-error results of calls whose context had been cancelled (libp2p reports a cancellation during stream
+	// negotiation as "i/o deadline reached")
+	otherCancelledN int
 }
 
 func (v *verdict) add(sig, format string, a ...any) {
@@ -635,15 +723,30 @@ func runCase(w *workload) (*verdict, error) {
 		return nil, err
 	}
 	T := time.Duration(w.TimeoutMs) * time.Millisecond
-	for _, c := range cl.conns {
-		c.VerifSetTimeout(T)
-	}
 	cs := &caseState{no: caseNo.Add(1), w: w, cl: cl, T: T, byGid: map[int64]*callState{}, byID: map[string]*attState{},
 		lastFnd: map[int]*attState{}, closing: make(chan struct{})}
 	for i, p := range w.Calls {
 		cs.calls = append(cs.calls, &callState{idx: i, plan: p, payload: payloadOf(cs.no, i), cancelCh: make(chan struct{}), done: make(chan struct{})})
 	}
+	if w.Storm { // liveness probe after the storm: one fresh fast call per node, created now (the handler indexes cs.calls)
+		for n := 0; n < 3*w.NConn; n++ { // up to three tries per node
+			i := len(cs.calls)
+			p := callPlan{Src: n % w.NConn, Dst: (n + 1) % w.NConn, Att: []attPlan{fastAtt(), fastAtt(), fastAtt(), fastAtt()}}
+			cs.calls = append(cs.calls, &callState{idx: i, plan: p, payload: payloadOf(cs.no, i), cancelCh: make(chan struct{}), done: make(chan struct{})})
+			cs.nProbes++
+		}
+	}
 	cs.touch()
+	// VerifSetTimeout takes resMu: a layer that is already blocked (late replies of the previous case) must not take the
+	// whole test process with it.
+	if v0, ok := cs.setTimeouts(T); !ok {
+		if v0 != nil {
+			return v0, nil
+		}
+		cl.wedged = true
+		evid.R.Inconclusive("case %d: response timeout could not be set within the budget, nothing recognisable blocked; cluster dropped, case skipped", cs.no)
+		return nil, errors.New("set timeout: budget")
+	}
 	setCase(cs)
 	defer setCase(nil)
 	if w.Holes > 0 {
@@ -665,53 +768,8 @@ func runCase(w *workload) (*verdict, error) {
 			defer wg.Done()
 			g := gid()
 			<-start
-			for i := wk; i < len(cs.calls); i += w.Workers {
-				c := cs.calls[i]
-				ctx, cancel := context.WithCancel(context.Background())
-				cs.mu.Lock()
-				c.cancel = cancel
-				cs.byGid[g] = c
-				cs.mu.Unlock()
-				sleepUs(c.plan.PreUs)
-				var tm *time.Timer
-				if c.plan.Cancel {
-					tm = time.AfterFunc(time.Duration(c.plan.CancelUs)*time.Microsecond, func() { cs.cancelCall(c) })
-				}
-				n := cs.inCalls.Add(1)
-				for {
-					m := cs.maxOver.Load()
-					if n <= m || cs.maxOver.CompareAndSwap(m, n) {
-						break
-					}
-				}
-				target := cl.ids[c.plan.Dst]
-				if c.plan.Hole > 0 {
-					target = cs.holes[c.plan.Hole-1].id
-					cs.holeOut[c.plan.Src].Add(1)
-					cs.holeStarts[c.plan.Src].Add(1)
-				}
-				saw := cs.holeOut[c.plan.Src].Load() > 0
-				h0 := cs.holeStarts[c.plan.Src].Load()
-				s0 := hbStalls.Load()
-				resp := cl.conns[c.plan.Src].RequestFrom(ctx, target, proc, []byte(c.payload))
-				s1 := hbStalls.Load()
-				saw = saw || cs.holeStarts[c.plan.Src].Load() != h0 // a black-hole call started on this node meanwhile
-				if c.plan.Hole > 0 {
-					cs.holeOut[c.plan.Src].Add(-1)
-				}
-				cs.inCalls.Add(-1)
-				if tm != nil {
-					tm.Stop()
-				}
-				cs.mu.Lock()
-				c.resp = resp
-				c.returned = true
-				c.stallsStart, c.stallsEnd, c.sawHole = s0, s1, saw
-				delete(cs.byGid, g)
-				cs.mu.Unlock()
-				close(c.done)
-				cancel()
-				cs.touch()
+			for i := wk; i < len(w.Calls); i += w.Workers {
+				cs.runCall(g, cs.calls[i])
 			}
 		}(wk)
 	}
@@ -728,33 +786,15 @@ func runCase(w *workload) (*verdict, error) {
 	allDone := make(chan struct{})
 	go func() { wg.Wait(); close(allDone) }()
 
-	finished := false
-	tick := time.NewTicker(50 * time.Millisecond)
-	defer tick.Stop()
-wait:
-	for {
-		select {
-		case <-allDone:
-			finished = true
-			break wait
-		case <-tick.C:
-		}
-		idle := time.Since(time.Unix(0, cs.last.Load()))
-		if idle > stallAfter {
-			if parked := persistentlyParked(300 * time.Millisecond); len(parked) > 0 {
-				cs.classifyWedge(v, parked)
-				break wait
-			}
-		}
-		if time.Since(t0) > hardCap {
-			v.incon = append(v.incon, fmt.Sprintf("case %d: %d calls outstanding after %v without a goroutine parked in onResponse (budget, not a verdict)", cs.no, cs.inCalls.Load(), hardCap))
-			cl.wedged = true // do not reuse, but nothing is claimed
-			break wait
-		}
+	finished := cs.await(allDone, v, t0)
+	tMain := time.Since(t0)
+	if finished && w.Storm && len(v.viol) == 0 {
+		cs.probeLiveness(v)
 	}
+	tProbe := time.Since(t0) - tMain
 	close(cs.closing)
 
-	if finished {
+	if finished && !v.blocked {
 		cs.afterQuiescence(v)
 	}
 	cs.evaluate(v, finished)
@@ -770,9 +810,112 @@ wait:
 			}
 			fmt.Fprintf(os.Stderr, "  c17 viol [%s] %s\n", x.Sig, d)
 		}
-		fmt.Fprintf(os.Stderr, "%s c17 case %d: calls=%d workers=%d T=%dms wall=%v viol=%d wedged=%v incon=%d cluster=%d\n", time.Now().Format("15:04:05.000"), cs.no, len(w.Calls), w.Workers, w.TimeoutMs, v.wall.Round(time.Millisecond), len(v.viol), v.wedged, len(v.incon), cl.serial)
+		fmt.Fprintf(os.Stderr, "%s c17 case %d: calls=%d workers=%d T=%dms wall=%v viol=%d wedged=%v incon=%d cluster=%d main=%v probe=%v late=%d lateConc=%d held=%d cap=%d\n", time.Now().Format("15:04:05.000"), cs.no, len(w.Calls), w.Workers, w.TimeoutMs, v.wall.Round(time.Millisecond), len(v.viol), v.wedged, len(v.incon), cl.serial, tMain.Round(time.Millisecond), tProbe.Round(time.Millisecond), v.lateN, v.lateConc, v.heldReg, v.capHits)
 	}
 	return v, nil
+}
+
+// runCall performs one planned call on the calling goroutine (goroutine ID g) and stores its result.
+func (cs *caseState) runCall(g int64, c *callState) {
+	cl := cs.cl
+	ctx, cancel := context.WithCancel(context.Background())
+	cs.mu.Lock()
+	c.cancel = cancel
+	cs.byGid[g] = c
+	cs.mu.Unlock()
+	sleepUs(c.plan.PreUs)
+	var tm *time.Timer
+	if c.plan.Cancel {
+		tm = time.AfterFunc(time.Duration(c.plan.CancelUs)*time.Microsecond, func() { cs.cancelCall(c) })
+	}
+	n := cs.inCalls.Add(1)
+	for {
+		m := cs.maxOver.Load()
+		if n <= m || cs.maxOver.CompareAndSwap(m, n) {
+			break
+		}
+	}
+	target := cl.ids[c.plan.Dst]
+	if c.plan.Hole > 0 {
+		target = cs.holes[c.plan.Hole-1].id
+		cs.holeOut[c.plan.Src].Add(1)
+		cs.holeStarts[c.plan.Src].Add(1)
+	}
+	if c.plan.Unreach {
+		target = unreachableID(cs.no, c.idx)
+	}
+	saw := cs.holeOut[c.plan.Src].Load() > 0
+	h0 := cs.holeStarts[c.plan.Src].Load()
+	s0 := hbStalls.Load()
+	cs.nodeIn[c.plan.Src].Add(1)
+	cs.setWant(c, true) // next thing this goroutine does to the layer: resMu.Lock to register its pending entry
+	tc := time.Now()
+	resp := cl.conns[c.plan.Src].RequestFrom(ctx, target, proc, []byte(c.payload))
+	if d := time.Since(tc); d > 500*time.Millisecond && os.Getenv("VERIF_C17_TRACE") != "" {
+		fmt.Fprintf(os.Stderr, "  c17 slow call %d (%v): unreachable=%v hole=%d cancel=%v err=%v\n", c.idx, d.Round(time.Millisecond), c.plan.Unreach, c.plan.Hole, c.plan.Cancel, resp.Error())
+	}
+	cs.setWant(c, false)
+	cs.nodeIn[c.plan.Src].Add(-1)
+	s1 := hbStalls.Load()
+	saw = saw || cs.holeStarts[c.plan.Src].Load() != h0 // a black-hole call started on this node meanwhile
+	if c.plan.Hole > 0 {
+		cs.holeOut[c.plan.Src].Add(-1)
+	}
+	cs.inCalls.Add(-1)
+	if tm != nil {
+		tm.Stop()
+	}
+	cs.mu.Lock()
+	c.resp = resp
+	c.returned = true
+	c.stallsStart, c.stallsEnd, c.sawHole = s0, s1, saw
+	delete(cs.byGid, g)
+	cs.mu.Unlock()
+	close(c.done)
+	cancel()
+	cs.touch()
+}
+
+// await waits for the calls running in the background (allDone) under the case watchdog. A request that never ends is a
+// violation, reported with positive evidence only: (a) onResponse parked in its channel send (classifyWedge), (b)
+// goroutines of this cluster's layer waiting for a mutex, or a requester parked in sendRequestMessage's select, in three
+// goroutine dumps while the process demonstrably ran (heartbeats) and nothing at all happened for stallAfter
+// (classifyBlocked), (c) nothing recognisable, yet calls outstanding and no event for idleCap although the process ran
+// for >= idleCapBeats heartbeats: reported with the stacks of the outstanding callers. Without such evidence the
+// budget (hardCap) ends the case as inconclusive.
+func (cs *caseState) await(allDone <-chan struct{}, v *verdict, t0 time.Time) (finished bool) {
+	tick := time.NewTicker(50 * time.Millisecond)
+	defer tick.Stop()
+	for {
+		select {
+		case <-allDone:
+			return true
+		case <-tick.C:
+		}
+		idle := time.Since(time.Unix(0, cs.last.Load()))
+		beats := hbBeats.Load() - cs.lastBeat.Load()
+		if idle > stallAfter {
+			if parked := persistentlyParked(300 * time.Millisecond); len(parked) > 0 {
+				cs.classifyWedge(v, parked)
+				return false
+			}
+			if beats >= stallBeats {
+				if ev := cs.blockedEvidence(); ev != nil {
+					cs.classifyBlocked(v, ev)
+					return false
+				}
+			}
+		}
+		if idle > idleCapNow() && beats >= idleCapBeats {
+			cs.classifyNoProgress(v, idle, beats)
+			return false
+		}
+		if time.Since(t0) > hardCap {
+			v.incon = append(v.incon, fmt.Sprintf("case %d: %d calls outstanding after %v without a goroutine parked in onResponse (budget, not a verdict)", cs.no, cs.inCalls.Load(), hardCap))
+			cs.cl.wedged = true // do not reuse, but nothing is claimed
+			return false
+		}
+	}
 }
 
 // classifyWedge: positive evidence (goroutines parked in onResponse's channel send in two dumps while nothing moved for
@@ -838,6 +981,8 @@ func (cs *caseState) afterQuiescence(v *verdict) {
 		if !ok {
 			if parked := persistentlyParked(300 * time.Millisecond); len(parked) > 0 {
 				cs.classifyWedge(v, parked)
+			} else if ev := cs.blockedEvidence(); ev != nil {
+				cs.classifyBlocked(v, ev)
 			} else {
 				v.incon = append(v.incon, fmt.Sprintf("case %d: resMu of node %d not obtainable for 3 s, nothing parked in onResponse", cs.no, i))
 				cs.cl.wedged = true
@@ -890,6 +1035,15 @@ func (cs *caseState) evaluate(v *verdict, finished bool) {
 			if a.foundAfterTO {
 				v.foundTO++
 			}
+			if a.lateUnknown {
+				v.lateN++
+			}
+			if a.lateConc {
+				v.lateConc++
+			}
+			if a.heldReg {
+				v.heldReg++
+			}
 			if a.lostEarly {
 				v.add(sigLost, "reply dropped as 'unknown request ID' although the requester had not even started to wait (handled between send and registration): %s", c.describe())
 			}
@@ -923,8 +1077,13 @@ func (cs *caseState) evaluate(v *verdict, finished bool) {
 				v.timeoutN++
 			case errors.Is(e, context.Canceled) || strings.Contains(e.Error(), "context canceled"):
 				v.cancelN++
+			case c.plan.Unreach: // nobody knows an address of that peer: any error is the expected outcome
+				v.unreachN++
 			default:
 				v.otherN++
+				if c.cancelled {
+					v.otherCancelledN++
+				}
 				v.otherErrs = append(v.otherErrs, e.Error())
 			}
 			continue
@@ -1076,6 +1235,10 @@ func summarize(w *workload, v *verdict) map[string]any {
 		m["black_holes"], m["black_hole_calls"], m["healthy_judged"], m["healthy_not_judged_process_stall"] = w.Holes, v.holeCalls, v.judged, v.judgeSkipped
 		m["healthy_overlapping_stalled_send"], m["max_failed_resmu_probes"] = v.overlapHole, v.lockStreak
 	}
+	if w.Storm {
+		m["late_replies_unknown_id"], m["late_replies_while_other_requests_in_flight"], m["late_replies_held_until_request_registers"] = v.lateN, v.lateConc, v.heldReg
+		m["unreachable_peer_calls"], m["liveness_probes"], m["liveness_probes_ok"] = v.unreachN, v.probeN, v.probeOK
+	}
 	k := len(w.Calls)
 	if k > 3 {
 		k = 3
@@ -1091,6 +1254,9 @@ func record(t fataler, kind string, w *workload, v *verdict) (knownHit bool) {
 	nontrivial := v.maxOver >= 8 && races > 0
 	if w.Holes > 0 { // stalled-peer class: healthy calls overlapped a stalled send on their own node and were judged
 		nontrivial = v.maxOver >= 8 && v.overlapHole > 0 && v.judged > 0
+	}
+	if w.Storm { // late-response storm: a late reply took the unknown-ID branch while other requests of its node were in flight
+		nontrivial = v.maxOver >= 8 && v.lateConc > 0
 	}
 	labels := []string{kind, fmt.Sprintf("conns=%d", w.NConn)}
 	if v.maxOver >= 8 {
@@ -1142,8 +1308,46 @@ func record(t fataler, kind string, w *workload, v *verdict) (knownHit bool) {
 		evid.R.Label("stalled-peer:healthy-calls-not-judged(process-stall)", int64(v.judgeSkipped))
 		evid.R.Label("stalled-peer:healthy-calls-overlapping-stalled-send", int64(v.overlapHole))
 		evid.R.Label("stalled-peer:healthy-calls-bad", int64(v.healthyBad))
+	} else if w.Storm {
+		labels = append(labels, "class:late-response-storm")
+		for _, k := range []int{8, 16, 32, 64} {
+			if v.maxOver >= k {
+				labels = append(labels, fmt.Sprintf("storm-case:concurrent-requesters>=%d", k))
+			}
+		}
+		resp := map[int]bool{}
+		for _, c := range w.Calls {
+			if !c.Unreach {
+				resp[c.Dst] = true
+			}
+		}
+		labels = append(labels, fmt.Sprintf("storm-case:responder-hosts=%d", len(resp)))
+		if v.lateN > 0 {
+			labels = append(labels, "storm-case:late-reply(unknown-id-branch)")
+		}
+		if v.lateConc > 0 {
+			labels = append(labels, "storm-case:late-reply-while-other-requests-in-flight")
+		}
+		if v.heldReg > 0 {
+			labels = append(labels, "storm-case:late-reply-held-until-request-registers-or-cleans-up")
+		}
+		if v.unreachN > 0 {
+			labels = append(labels, "storm-case:unreachable-peer-calls")
+		}
+		if v.probeN > 0 && v.probeOK == v.probeN {
+			labels = append(labels, "storm-case:liveness-probe-served")
+		}
+		evid.R.Label("storm:late-replies(unknown-id-branch)", int64(v.lateN))
+		evid.R.Label("storm:late-replies-while-other-requests-in-flight", int64(v.lateConc))
+		evid.R.Label("storm:late-replies-held-until-request-registers-or-cleans-up", int64(v.heldReg))
+		evid.R.Label("storm:unreachable-peer-calls", int64(v.unreachN))
+		evid.R.Label("storm:liveness-probes", int64(v.probeN))
+		evid.R.Label("storm:liveness-probes-served", int64(v.probeOK))
 	} else {
 		labels = append(labels, "class:race-steering")
+	}
+	if v.blocked {
+		labels = append(labels, "case:blocked-layer(goroutine-evidence)")
 	}
 	evid.R.Case(string(key), nontrivial, func() any { return summarize(w, v) }, labels...)
 	evid.R.Label("calls", int64(v.nCalls))
@@ -1153,6 +1357,7 @@ func record(t fataler, kind string, w *workload, v *verdict) (knownHit bool) {
 	evid.R.Label("result:timeout", int64(v.timeoutN))
 	evid.R.Label("result:cancelled", int64(v.cancelN))
 	evid.R.Label("result:other-error", int64(v.otherN))
+	evid.R.Label("result:other-error(context-was-cancelled)", int64(v.otherCancelledN))
 	evid.R.Label("race:reply-before-wait-started", int64(v.raceReg))
 	evid.R.Label("race:reply-vs-timeout", int64(v.raceTO))
 	evid.R.Label("race:found-after-timer-fired", int64(v.foundTO))
